@@ -413,6 +413,9 @@ pub fn gen_layout(rng: &mut Rng, rows: usize, max_files: usize) -> ParquetLayout
         4 => 1 + rng.usize(rows.max(1)),
         _ => 4096,
     };
+    // at most ~300 row groups per table: thousands of one-row groups are not a shape a
+    // writer produces, and every split of such a table costs a reader open
+    let rg = rg.max(rows / 300 + 1);
     ParquetLayout {
         file_cuts,
         row_group_rows: rg.max(1),
